@@ -36,28 +36,28 @@ type Scan struct {
 type state uint8
 
 const (
-	sValue      state = iota // expecting a value
-	sArrFirst                // just after '[': value or ']'
-	sObjFirst                // just after '{': key or '}'
-	sObjKey                  // after ',' in object: key
-	sColon                   // after key: ':'
-	sAfter                   // after a value: ',' or closer (or end at depth 0)
-	sStr                     // inside a string
-	sStrEsc                  // after backslash
-	sStrU                    // inside \uXXXX
-	sNumNeg                  // after '-'
-	sNumZero                 // after leading 0
-	sNumInt                  // in integer digits
-	sNumDot                  // after '.'
-	sNumFrac                 // in fraction digits
-	sNumE                    // after e/E
-	sNumESign                // after e+ / e-
-	sNumExp                  // in exponent digits
-	sLit                     // inside true/false/null
-	sDone                    // top-level value complete: only whitespace may follow
+	sValue    state = iota // expecting a value
+	sArrFirst              // just after '[': value or ']'
+	sObjFirst              // just after '{': key or '}'
+	sObjKey                // after ',' in object: key
+	sColon                 // after key: ':'
+	sAfter                 // after a value: ',' or closer (or end at depth 0)
+	sStr                   // inside a string
+	sStrEsc                // after backslash
+	sStrU                  // inside \uXXXX
+	sNumNeg                // after '-'
+	sNumZero               // after leading 0
+	sNumInt                // in integer digits
+	sNumDot                // after '.'
+	sNumFrac               // in fraction digits
+	sNumE                  // after e/E
+	sNumESign              // after e+ / e-
+	sNumExp                // in exponent digits
+	sLit                   // inside true/false/null
+	sDone                  // top-level value complete: only whitespace may follow
 )
 
-func isWS(c byte) bool { return c == ' ' || c == '\t' || c == '\n' || c == '\r' }
+func isWS(c byte) bool    { return c == ' ' || c == '\t' || c == '\n' || c == '\r' }
 func isDigit(c byte) bool { return '0' <= c && c <= '9' }
 func isHex(c byte) bool {
 	return isDigit(c) || ('a' <= c && c <= 'f') || ('A' <= c && c <= 'F')
